@@ -28,5 +28,33 @@ class Bounded(C.BoundedStream):
     oracle_fn = staticmethod(C.oracle_c09)
 
 
+from harness.props import c16 as F     # noqa: E402
+
+
+class FutureOutcome(F.Main):
+    """"its FutureResult then reports done and yields the very object the task returned or raises the very exception
+    it raised" is the completion protocol of FutureResult / EventData (Props/C16.v) seen by the consumer of a pool
+    task: every interleaving of the executor with done() / result(timeout) / result() observers on the real code,
+    in lock-step with Model/Future.v, judged by the C16 oracle under this property's key."""
+    name = "future-outcome"
+
+    def jobs(self, tier):
+        P = lambda b, o: {"body": b, "regs": [], "obs": list(o)}     # noqa
+        out = []
+        for b in F.BODIES:
+            for o in (["done"], ["result_t"], ["result"]):
+                out.append((P(b, o), False, 5000))
+            if tier == "thorough":
+                out.append((P(b, ["done", "result_t"]), False, 20000))
+        return out
+
+    def n_random(self, tier):
+        return 0
+
+    def oracle(self, case, obs):
+        bad = F.Main.oracle(self, case, obs)
+        return None if bad is None else ("C09:future:" + bad[0], bad[1])
+
+
 def streams():
-    return [Lockstep(), Bounded()]
+    return [Lockstep(), Bounded(), FutureOutcome()]
